@@ -8,7 +8,10 @@ from mdsa.astutil import call_attr, call_recv, local_calls, norm, store_targets
 from mdsa.cfg import walk_local
 from mdsa.loader import AnalysisError
 
+from mdsa import match as M
+
 from .common import Ctx, local_defs, node_of
+from .sem import F
 
 I = "container.interface"
 
@@ -60,55 +63,90 @@ def loop_locals_used_after(fi) -> List[tuple]:
     return out
 
 
+def _always(f, nodes) -> bool:
+    return bool(nodes) and f.hit_before(f.g.exit, nodes=nodes)
+
+
 def r_links_register(P, rep, ctx, rule):
     fi = P.func(f"{I}.TOCLinks.register")
-    g = ctx.cfg(fi)
-    reg = [n.idx for n in g.nodes if any(norm(c.func) == "self._toc_schemas._register" and c.args and norm(c.args[0]) == "obj.schema" for c in g.calls(n.idx))]
-    wr = [n.idx for n in g.nodes if n.kind == "stmt" and isinstance(n.stmt, ast.Assign) and any(norm(t) == "self._raw[toc_path]" for t in n.stmt.targets)]
-    mem = [n.idx for n in g.nodes if n.kind == "stmt" and isinstance(n.stmt, ast.Assign) and any(norm(t) == "self._toc_path[obj.uuid]" for t in n.stmt.targets)]
-    ok = bool(reg) and bool(wr) and all(g.every_path_passes(reg, w) for w in wr) and g.every_path_passes(wr, g.exit) and g.every_path_passes(mem, g.exit) and bool(mem)
+    f = F(ctx, fi)
+    o = fi.params[1]
+    reg = f.calls(f"self._toc_schemas._register({o}.schema)")
+    LP = f"f'{{self._link_path_for({o}.schema)}}/{{{o}.uuid}}'"
+    wrs = [(i, v, b) for i, v, b in f.stores("self._raw[__p]")]
+    wr = [i for i, v, b in wrs]
+    mems = [(i, v, b) for i, v, b in f.stores(f"self._toc_path[{o}.uuid]")]
+    mem = [i for i, v, b in mems]
+    ok = bool(reg) and bool(wr) and f.all_hit_before(wr, nodes=reg) and _always(f, wr) and _always(f, mem)
     rep.check(ok, rule, fi.qual, "schema (and provider) description is registered before the link is written; link is written and indexed on every exit", fi.loc(), construct="register order",
               message="TOCLinks.register does not call _toc_schemas._register(obj.schema) before writing the link / does not write and index the link on every path")
-    d = local_defs(fi)
-    tp = [norm(v) for k, v in d.get("toc_path", []) if v is not None]
-    rep.check(tp == ["f'{self._link_path_for(obj.schema)}/{obj.uuid}'"], rule, fi.qual, "link path = <links>/<schema ep name>/<uuid>", fi.loc(), construct=f"toc_path = {tp}", message=f"TOC link path is built as {tp}")
-    rep.check(all(norm(g.nodes[w].stmt.value) == "str(obj.node.name)" for w in wr), rule, fi.qual, "the link stores the path of the metadata object", fi.loc(), construct="link target", message="the TOC link does not store str(obj.node.name)")
+    tp = sorted({f.x(b["__p"]) for i, v, b in wrs} | {f.x(v) for i, v, b in mems})
+    rep.check(tp == [LP], rule, fi.qual, "link path = <links>/<schema ep name>/<uuid>", fi.loc(), construct=f"toc_path = {tp}", message=f"TOC link path is built as {tp}")
+    rep.check(bool(wrs) and all(f.x(v) in (f"str({o}.node.name)", f"{o}.node.name") for i, v, b in wrs), rule, fi.qual, "the link stores the path of the metadata object", fi.loc(), construct="link target", message="the TOC link does not store str(obj.node.name)")
 
 
 def r_schema_register(P, rep, ctx, rule):
     fi = P.func(f"{I}.TOCSchemas._register")
-    g = ctx.cfg(fi)
-    t = norm(fi.node)
-    known = [x for x in g.nodes if x.kind == "test" and norm(x.exprs[0]) == "schema_ref in self._schemas"]
-    rep.check(bool(known) and all(any(b == g.exit or isinstance(g.nodes[b].stmt, ast.Return) for b, l in g.succ[x.idx] if l == "T") for x in known), rule, fi.qual, "an already described schema is left alone", fi.loc(), construct="known schema shortcut", message="_register does not return early for an already registered schema")
-    rep.check("schema_cls = schemas.get(schema_ref.name, schema_ref.version)" in t, rule, fi.qual, "the class described is the one installed for exactly (name, version)", fi.loc(), construct="schema class lookup",
+    f = F(ctx, fi)
+    g = f.g
+    sr = fi.params[1]
+    CLS = f"schemas.get({sr}.name, {sr}.version)"
+    PAR = f"schemas.parent_path({sr}.name, {sr}.version)"
+    known = f.tests(f"{sr} in self._schemas")
+    writes = [i for i, v, b in f.stores("self._raw[__p]")]
+    rep.check(bool(known) and not f.reaches(known, writes) and f.all_hit_before(writes, nodes=f.test_nodes(known)), rule, fi.qual, "an already described schema is left alone", fi.loc(), construct="known schema shortcut", message="_register does not return early for an already registered schema")
+    lookups = [f.x(c) for _, c, b in f.call_sites("schemas.get(___)")]
+    rep.check(bool(lookups) and set(lookups) == {CLS}, rule, fi.qual, "the class described is the one installed for exactly (name, version)", fi.loc(), construct="schema class lookup",
               message="_register does not look the schema class up with the exact (name, version) of the stored object (e.g. takes the latest installed version)")
-    rep.check("jsonschema_dat = schema_cls.schema_json().encode('utf-8')" in t and "self._raw[jsonschema_path] = jsonschema_dat" in t and "jsonschema_path = self._jsonschema_path_for(schema_ref)" in t, rule, fi.qual,
+    js = [(i, v, b) for i, v, b in f.stores("self._raw[__p]") if f.x(b["__p"]) == f"self._jsonschema_path_for({sr})"]
+    rep.check(bool(js) and all(f.x(v) == f"{CLS}.schema_json().encode('utf-8')" for i, v, b in js) and _always_unless(f, [i for i, v, b in js], known), rule, fi.qual,
               "the JSON Schema of that class is stored under the schema's own path", fi.loc(), construct="jsonschema store", message="_register does not store schema_cls.schema_json() at _jsonschema_path_for(schema_ref)")
-    rep.check("parents = schemas.parent_path(schema_ref.name, schema_ref.version)" in t and "self._raw[compat_path] = parents_dat" in t and "compat_path = f'{self._schema_path_for(schema_ref)}/compat'" in t, rule, fi.qual,
+    cp = [(i, v, b) for i, v, b in f.stores("self._raw[__p]") if f.x(b["__p"]) == f"f'{{self._schema_path_for({sr})}}/compat'"]
+    rep.check(bool(cp) and all(PAR in f.x(v) for i, v, b in cp) and _always_unless(f, [i for i, v, b in cp], known), rule, fi.qual,
               "the parent chain of the same (name, version) is stored", fi.loc(), construct="compat store", message="_register does not store schemas.parent_path(name, version) of the same pair under <schema>/compat")
-    pd = [v for k, v in local_defs(fi).get("parents_dat", []) if v is not None]
-    whole = len(pd) == 1 and any(isinstance(x, ast.Name) and x.id == "parents" for x in ast.walk(pd[0])) and not any(isinstance(x, ast.Subscript) and isinstance(x.value, ast.Name) and x.value.id == "parents" for x in ast.walk(pd[0])) and "x.dict()" in norm(pd[0])
-    rep.check(whole, rule, fi.qual, "the persisted parent chain is the complete chain the in-memory tables receive", fi.loc(), construct=f"parents_dat = {[norm(p) for p in pd]}",
-              message=f"the persisted `compat` chain is built from {[norm(p) for p in pd]}, not from the whole `parents` list that the in-memory tables get: a reopened container reports a shorter parent chain than the plugin system")
-    rep.check("self._schemas.add(schema_ref)" in t and "self._update_parents_children(schema_ref, parents)" in t, rule, fi.qual, "in-memory tables are updated", fi.loc(), construct="table update", message="_register does not update _schemas / parents / children")
-    tests = [x for x in g.nodes if x.kind == "test" and "self._pkgs._providers" in norm(x.exprs[0])]
-    regp = [n.idx for n in g.nodes if any(norm(c.func) == "self._pkgs._register" for c in g.calls(n.idx))]
-    accepted = ("not self._pkgs._providers.get(schema_ref, [])", "not self._pkgs._providers.get(schema_ref)", "len(self._pkgs._providers.get(schema_ref, [])) == 0", "schema_ref not in self._pkgs._providers")
-    tests = [x for x in tests if norm(x.exprs[0]) in accepted]
-    rep.check(bool(tests) and bool(regp) and all(any(g.edge_dominates(x.idx, "T", r) for x in tests) for r in regp) and all(g.every_path_passes(regp, g.exit, src=x.idx, src_label="T") for x in tests), rule, fi.qual, "a providing package is stored when no stored package provides the schema", fi.loc(), construct="provider registration",
+    whole = bool(cp)
+    for i, v, b in cp:
+        xv = f.xe(v)
+        # the serialised value uses the whole chain: no slice / index of it, every element serialised with .dict()
+        uses = [x for x in ast.walk(xv) if M.match(PAR, x) is not None]
+        sliced = [x for x in ast.walk(xv) if isinstance(x, ast.Subscript) and M.match(PAR, x.value) is not None]
+        whole = whole and bool(uses) and not sliced and ".dict()" in norm(xv)
+    rep.check(whole, rule, fi.qual, "the persisted parent chain is the complete chain the in-memory tables receive", fi.loc(), construct="persisted parents = whole chain",
+              message="the persisted `compat` chain is not built from the whole `parents` list that the in-memory tables get: a reopened container reports a shorter parent chain than the plugin system")
+    add = f.calls(f"self._schemas.add({sr})")
+    upc = [i for i, c, b in f.call_sites(f"self._update_parents_children({sr}, __p)") if f.x(b["__p"]) == PAR]
+    rep.check(_always_unless(f, add, known) and _always_unless(f, upc, known), rule, fi.qual, "in-memory tables are updated", fi.loc(), construct="table update", message="_register does not update _schemas / parents / children")
+    PROV = f"self._pkgs._providers"
+    none_stored = f.tests(f"not {PROV}.get({sr}, [])", f"not {PROV}.get({sr})", f"not len({PROV}.get({sr}, []))", f"{sr} not in {PROV}", f"not {PROV}.get({sr}, set())")
+    regps = f.call_sites("self._pkgs._register(__k, __i)")
+    regp = [i for i, c, b in regps]
+    ok = bool(none_stored) and bool(regp) and f.all_hit_before(regp, edges=none_stored) and all(f.hit_before(g.exit, nodes=regp, src_edge=e) for e in none_stored)
+    rep.check(ok, rule, fi.qual, "a providing package is stored when no stored package provides the schema", fi.loc(), construct="provider registration",
               message="_register never stores the providing package's metadata")
-    rep.check("env_pkg_info: PluginPkgMeta = schemas.provider(schema_cls.Plugin.ref())" in t and "pkg_name_ver = (str(env_pkg_info.name), env_pkg_info.version)" in t and "self._pkgs._register(pkg_name_ver, env_pkg_info)" in t, rule, fi.qual,
-              "the stored package info is what the plugin system reports as provider of that schema", fi.loc(), construct="provider source", message="_register does not store schemas.provider(<schema ref>) as PluginPkgMeta under (name, version)")
+    INFO = f"schemas.provider({CLS}.Plugin.ref())"
+    ok = bool(regps) and all(f.x(b["__i"]) == INFO and f.x(b["__k"]) == f"(str({INFO}.name), {INFO}.version)" for i, c, b in regps)
+    rep.check(ok, rule, fi.qual, "the stored package info is what the plugin system reports as provider of that schema", fi.loc(), construct="provider source", message="_register does not store schemas.provider(<schema ref>) as PluginPkgMeta under (name, version)")
     # provider test vs. cleanup of empty provider sets (two cooperating sites)
-    emptiness = any(norm(x.exprs[0]) in ("not self._pkgs._providers.get(schema_ref, [])", "not self._pkgs._providers.get(schema_ref)", "len(self._pkgs._providers.get(schema_ref, [])) == 0") for x in tests)
-    un = P.func(f"{I}.TOCPackages._unregister")
-    ut = norm(un.node)
-    deletes_empty = "if not providers: del self._providers[schema_ref]" in ut.replace("\n", " ") or ("del self._providers[schema_ref]" in ut and "if not providers" in ut)
+    emptiness = bool(f.tests(f"not {PROV}.get({sr}, [])", f"not {PROV}.get({sr})", f"not len({PROV}.get({sr}, []))", f"not {PROV}.get({sr}, set())"))
+    unfi = P.func(f"{I}.TOCPackages._unregister")
+    un = F(ctx, unfi)
+    dele = un.deletes("self._providers[__s]") + un.calls("self._providers.pop(___)")
+    emp = un.tests("not self._providers[__s]", "not len(self._providers[__s])")
+    deletes_empty = bool(dele) and bool(emp) and un.all_hit_before(dele, edges=emp) and all(not un.reaches([e], [un.g.exit]) or un.hit_before(un.g.exit, nodes=dele, src_edge=e) for e in emp)
     rep.check(emptiness or deletes_empty, rule, fi.qual, "'no stored provider' is decided by emptiness, or emptied provider sets are deleted on package removal", fi.loc(), construct="provider test vs. cleanup",
               message="_register tests `schema_ref not in _providers` while TOCPackages._unregister leaves empty provider sets behind: after a package was cleaned up, re-using one of its schemas stores no providing package")
-    used = [n.idx for n in g.nodes if n.kind == "stmt" and "self._used[pkg].add(schema_ref)" in norm(n.stmt)]
-    rep.check(bool(used), rule, fi.qual, "the schema is counted as user of its providing package(s)", fi.loc(), construct="_used update", message="_register does not count the schema in _used of its providers")
+    loops = [n for n in g.nodes if n.kind == "for" and f.x(n.stmt.iter) == f"{PROV}[{sr}]" and isinstance(n.stmt.target, ast.Name)]
+    ok = len(loops) == 1
+    if ok:
+        pk = loops[0].stmt.target.id
+        used = f.calls(f"self._used[{pk}].add({sr})")
+        ok = bool(used) and f.hit_before(loops[0].idx, nodes=used, src_edge=(loops[0].idx, "iter")) and _always_unless(f, [loops[0].idx], known)
+    rep.check(ok, rule, fi.qual, "the schema is counted as user of its providing package(s)", fi.loc(), construct="_used update", message="_register does not count the schema in _used of its providers")
+
+
+def _always_unless(f, nodes, skip_edges) -> bool:
+    """nodes lie on every path to the normal exit, except paths that took one of skip_edges"""
+    return bool(nodes) and f.hit_before(f.g.exit, nodes=nodes, edges=skip_edges)
 
 
 def r_loader_agreement(P, rep, ctx, rule):
@@ -147,16 +185,61 @@ def r_loader_agreement(P, rep, ctx, rule):
         for nm, later, loop in loop_locals_used_after(init):
             rep.fail(rule, init.qual, f"{nm} used after its loop: {norm(later)[:80]}", f"`{norm(later)[:80]}` uses `{nm}`, which is bound per entry inside the loop `for {norm(loop.target)} in {norm(loop.iter)}`, after that loop: only the last entry is processed (per-entry bookkeeping is lost on reopen)", init.loc(later))
     # path helpers agree between writer and loader
-    t = norm(ts.methods["__init__"].node)
-    rep.check("node['compat']" in t and "M.METADOR_SCHEMAS_PATH in self._raw" in t and "_schema_ref_for(name)" in t, rule, ts.methods["__init__"].qual, "loader reads <schemas>/<ep name>/compat, the path the writer uses", ts.methods["__init__"].loc(),
+    def ret_of(fn):
+        ff = F(ctx, fn)
+        return sorted(ff.x(v) for _, v in ff.returns() if v is not None), ff
+
+    ti = F(ctx, ts.methods["__init__"])
+    stored = ti.tests("M.METADOR_SCHEMAS_PATH in self._raw")
+    loops = [n for n in ti.g.nodes if n.kind == "for" and ti.x(n.stmt.iter) in ("self._raw.require_group(M.METADOR_SCHEMAS_PATH).items()", "self._raw[M.METADOR_SCHEMAS_PATH].items()") and isinstance(n.stmt.target, ast.Tuple)]
+    ok = bool(stored) and len(loops) == 1
+    if ok:
+        nm, nd = [norm(e) for e in loops[0].stmt.target.elts]
+        body = " ".join(ti.x(st) if isinstance(st, ast.expr) else norm(ti.xstmt(st)) for st in loops[0].stmt.body)
+        ok = f"{nd}['compat']" in body and f"_schema_ref_for({nm})" in body and ti.hit_before(loops[0].idx, edges=stored)
+    rep.check(ok, rule, ts.methods["__init__"].qual, "loader reads <schemas>/<ep name>/compat, the path the writer uses", ts.methods["__init__"].loc(),
               construct="schemas loader paths", message="TOCSchemas loader does not read the `compat` dataset below METADOR_SCHEMAS_PATH/<ep name> that _register writes")
-    rep.check("return f'{M.METADOR_SCHEMAS_PATH}/{to_ep_name(s_ref.name, s_ref.version)}'" in norm(ts.methods["_schema_path_for"].node) and "return f'{cls._schema_path_for(s_ref)}/jsonschema.json'" in norm(ts.methods["_jsonschema_path_for"].node), rule, ts.qual,
+    r1, f1 = ret_of(ts.methods["_schema_path_for"])
+    r2, f2 = ret_of(ts.methods["_jsonschema_path_for"])
+    a1 = ts.methods["_schema_path_for"].params[-1]
+    a2 = ts.methods["_jsonschema_path_for"].params[-1]
+    rep.check(r1 == [f"f'{{M.METADOR_SCHEMAS_PATH}}/{{to_ep_name({a1}.name, {a1}.version)}}'"] and r2 == [f"f'{{cls._schema_path_for({a2})}}/jsonschema.json'"], rule, ts.qual,
               "schema paths are derived from one helper (ep name below METADOR_SCHEMAS_PATH)", ts.module.relpath, construct="schema path helpers", message="schema path helpers changed shape")
     gi = ts.methods["__getitem__"]
-    rep.check("node_path = self._jsonschema_path_for(schema_ref)" in norm(gi.node) and "self._load_json(cast(H5DatasetLike, self._raw[node_path]))" in norm(gi.node), rule, gi.qual, "reader of the embedded JSON Schema uses the writer's path helper", gi.loc(), construct="jsonschema reader", message="TOCSchemas.__getitem__ does not read from _jsonschema_path_for(schema_ref)")
-    t = norm(tp.methods["__init__"].node)
-    rep.check("M.METADOR_PACKAGES_PATH in self._raw" in t and "from_ep_name(EPName(name))" in t and "PluginPkgMeta.parse_raw(" in t, rule, tp.methods["__init__"].qual, "package loader parses <packages>/<ep name> as written", tp.methods["__init__"].loc(), construct="packages loader", message="TOCPackages loader does not parse the package datasets the writer stores")
-    rep.check("return f'{M.METADOR_PACKAGES_PATH}/{to_ep_name(pkg_name, pkg_version)}'" in norm(tp.methods["_pkginfo_path_for"].node) and "self._raw[pkg_path] = bytes(info)" in norm(tp.methods["_register"].node), rule, tp.qual, "package writer stores bytes(info) at the helper path", tp.module.relpath, construct="packages writer", message="TOCPackages._register does not store bytes(info) at _pkginfo_path_for(*pkg)")
-    t = norm(tl.methods["__init__"].node)
-    rep.check("M.METADOR_LINKS_PATH in self._raw" in t and "self._toc_path[UUID(uuid)] = link_node.name" in t, rule, tl.methods["__init__"].qual, "link loader indexes every <links>/<schema>/<uuid> node", tl.methods["__init__"].loc(), construct="links loader", message="TOCLinks loader does not index uuid -> link path for every stored link")
-    rep.check("return f'{M.METADOR_LINKS_PATH}/{_ep_name_for(schema_ref)}'" in norm(tl.methods["_link_path_for"].node), rule, tl.qual, "link paths are derived from one helper", tl.module.relpath, construct="link path helper", message="_link_path_for changed shape")
+    gf = F(ctx, gi)
+    loads = gf.call_sites("self._load_json(__n)")
+    okg = bool(loads) and all(gf.x(b["__n"]) in (f"cast(H5DatasetLike, self._raw[self._jsonschema_path_for({gi.params[1]})])", f"self._raw[self._jsonschema_path_for({gi.params[1]})]") for i, c, b in loads)
+    rep.check(okg, rule, gi.qual, "reader of the embedded JSON Schema uses the writer's path helper", gi.loc(), construct="jsonschema reader", message="TOCSchemas.__getitem__ does not read from _jsonschema_path_for(schema_ref)")
+    pi = F(ctx, tp.methods["__init__"])
+    stored = pi.tests("M.METADOR_PACKAGES_PATH in self._raw")
+    loops = [n for n in pi.g.nodes if n.kind == "for" and pi.x(n.stmt.iter) in ("self._raw.require_group(M.METADOR_PACKAGES_PATH).items()", "self._raw[M.METADOR_PACKAGES_PATH].items()") and isinstance(n.stmt.target, ast.Tuple)]
+    ok = bool(stored) and len(loops) == 1
+    if ok:
+        nm, nd = [norm(e) for e in loops[0].stmt.target.elts]
+        body = " ".join(norm(pi.xstmt(st)) for st in loops[0].stmt.body)
+        ok = f"from_ep_name(EPName({nm}))" in body and "PluginPkgMeta.parse_raw(" in body and pi.hit_before(loops[0].idx, edges=stored)
+    rep.check(ok, rule, tp.methods["__init__"].qual, "package loader parses <packages>/<ep name> as written", tp.methods["__init__"].loc(), construct="packages loader", message="TOCPackages loader does not parse the package datasets the writer stores")
+    r3, f3 = ret_of(tp.methods["_pkginfo_path_for"])
+    pp = tp.methods["_pkginfo_path_for"].params
+    rg = F(ctx, tp.methods["_register"])
+    rgp = tp.methods["_register"].params
+    wr = [(i, v, b) for i, v, b in rg.stores("self._raw[__p]")]
+    okw = r3 == [f"f'{{M.METADOR_PACKAGES_PATH}}/{{to_ep_name({pp[-2]}, {pp[-1]})}}'"] and bool(wr) and all(rg.x(b["__p"]) == f"self._pkginfo_path_for(*{rgp[1]})" and rg.x(v) == f"bytes({rgp[2]})" for i, v, b in wr)
+    rep.check(okw, rule, tp.qual, "package writer stores bytes(info) at the helper path", tp.module.relpath, construct="packages writer", message="TOCPackages._register does not store bytes(info) at _pkginfo_path_for(*pkg)")
+    li = F(ctx, tl.methods["__init__"])
+    stored = li.tests("M.METADOR_LINKS_PATH in self._raw")
+    idx = [(i, v, b) for i, v, b in li.stores("self._toc_path[UUID(__u)]")]
+    okl = bool(stored) and bool(idx)
+    for i, v, b in idx:
+        # the store sits in a loop over the (uuid, node) items of every schema link group below METADOR_LINKS_PATH
+        un_, ln_ = norm(b["__u"]), None
+        inner = [n for n in li.g.nodes if n.kind == "for" and isinstance(n.stmt.target, ast.Tuple) and len(n.stmt.target.elts) == 2 and norm(n.stmt.target.elts[0]) == un_]
+        okl = okl and len(inner) == 1 and li.x(v) == f"{norm(inner[0].stmt.target.elts[1])}.name" and li.hit_before(i, edges=stored)
+        if okl:
+            grp = inner[0].stmt.iter
+            outer = [n for n in li.g.nodes if n.kind == "for" and isinstance(n.stmt.target, ast.Name) and li.x(grp) == f"{n.stmt.target.id}.items()" and li.x(n.stmt.iter) in ("self._raw.require_group(M.METADOR_LINKS_PATH).values()", "self._raw[M.METADOR_LINKS_PATH].values()")]
+            okl = len(outer) == 1
+    rep.check(okl, rule, tl.methods["__init__"].qual, "link loader indexes every <links>/<schema>/<uuid> node", tl.methods["__init__"].loc(), construct="links loader", message="TOCLinks loader does not index uuid -> link path for every stored link")
+    r4, f4 = ret_of(tl.methods["_link_path_for"])
+    a4 = tl.methods["_link_path_for"].params[-1]
+    rep.check(r4 == [f"f'{{M.METADOR_LINKS_PATH}}/{{_ep_name_for({a4})}}'"], rule, tl.qual, "link paths are derived from one helper", tl.module.relpath, construct="link path helper", message="_link_path_for changed shape")
